@@ -157,12 +157,15 @@ Definition no_contracts (sc : scen) (d : disk) : bool :=
   forallb (fun r => match d_con d (r_key r) with None => true | Some _ => false end)
           (sc_resolvers sc).
 
-(* relaunchResolvers + resolveContracts: a goroutine per persisted contract;
-   launchResolvers skips a resolved one and its resolveContract loop
-   (for !IsResolved()) exits at once. *)
+(* relaunchResolvers + resolveContracts: a goroutine per persisted contract.
+   launchResolvers skips a contract that was reloaded with resolved = true,
+   but its resolveContract goroutine (since commit 2099ea4) removes it from
+   the log (log.ResolveContract) and signals the arbitrator: in the model
+   that is the thread state "all stages completed", whose only step is the
+   delete + resolutionSignal of [res_step]. *)
 Definition relaunch (sc : scen) (d : disk) : N -> option (nat * bool) :=
   fun k => match find_spec sc k, d_con d k with
-           | Some r, Some p => if Nat.ltb p (length (r_stages r)) then Some (p, false) else None
+           | Some r, Some p => Some (p, false)
            | _, _ => None
            end.
 
